@@ -487,7 +487,7 @@ def w_passthrough(unit='out', mode='idle', props=None):
 W_OP_FREE = ['func', 'class_function', 'metadata_extractor', 'args', 'kwargs']
 
 
-def w_op_state(mode, inline_post=False, case=None, obl=None, props=None):
+def w_op_state(mode, inline_post=False, case=None, obl=None, props=None, any_args=False):
     repo, spec, ex, st, selfv, fr, node, info = setup(W_OP, mode, W_OP_FREE, inline_post=inline_post)
     spec.declare_role(st, fr['func'], 'UserBody', 'func')
     spec.declare_role(st, fr['metadata_extractor'], 'UserHook', 'metadata_extractor', definite=False)
@@ -495,9 +495,11 @@ def w_op_state(mode, inline_post=False, case=None, obl=None, props=None):
     st.assume(z3.Or(me == NONE, z3.And(Val.is_ref(me), Val.addr(me) < BASE, Val.addr(me) >= 0, TYP(Val.addr(me)) == K('function'))))
     st.assume(Val.is_b(fr['class_function']))
     # requires: called with the instance (or the class, for class operations) as first positional argument
-    a = st.seq(fr['args']); st.assume(z3.Length(a) >= 1)
-    a0 = a[0]
-    st.assume(z3.If(Val.bv(fr['class_function']), Val.is_cls(a0), z3.And(Val.is_ref(a0), Val.addr(a0) < BASE, Val.addr(a0) >= 0)))
+    a = st.seq(fr['args'])
+    if not any_args:
+        st.assume(z3.Length(a) >= 1)
+        a0 = a[0]
+        st.assume(z3.If(Val.bv(fr['class_function']), Val.is_cls(a0), z3.And(Val.is_ref(a0), Val.addr(a0) < BASE, Val.addr(a0) >= 0)))
     # the per-class parameter table holds RecordingParameters objects (class invariant established by recording_params.wrapper)
     assert st.sat(), 'vacuous precondition'
     apply_case(st, fr, case, 'w_op', obl, 'W_op.' + mode, (props or ['C05'])[0])
@@ -517,6 +519,7 @@ def table_lookup(spec):
             st.g['param_source'] = 'default'
             for s_ in (sH, st):
                 s_.g['table_keys'] = s_.g.get('table_keys', []) + [pos[0]]
+            sH.g['params_obj'] = p; st.g['params_obj'] = pos[1]
             return [(sH, ('val', p)), (st, ('val', pos[1]))]
         return _orig(ex, st, cls, name, recv, pos, kw, node, star, dstar)
     spec.objmethod = objmethod
@@ -542,6 +545,10 @@ def w_op_recording(props=None, case=None):
             # skipped class: pure pass-through, nothing created
             transparency(obl, U + '.skipped', s, oc, fr)
             obl.append(Obl('C17/%s/skipped_class_starts_no_recording' % U, 'C17', s, no_cassette_events(s), oc))
+            # ... and ONLY a skipped class: with recording enabled every other operation starts a recording, whatever its rate (a forced
+            # operation of a rate-0 class must still be kept)
+            po_ = s.g.get('params_obj')
+            obl.append(Obl('C17/%s/only_a_skipped_class_starts_no_recording' % U, 'C17', s, truthy(s.rd(po_, 'skipped')) if po_ is not None else z3.BoolVal(False), oc))
             obl.append(Obl('C09/%s/idle_after' % U, ('C09', 'C05', 'C17', 'C03'), s, idle(s, selfv), oc))
             continue
         transparency(obl, U, s, oc, fr)
@@ -622,7 +629,7 @@ def w_op_recording(props=None, case=None):
             # returned -- nothing left over from an earlier run of the same decorated operation
             k_ = fresh('any_metadata_key'); fwk = [key(n_) for n_ in ('DURATION', 'RECORDED_AT', 'OPERATION_CLASS', 'EXCEPTION_IN_OPERATION', 'INCOMPLETE_RECORDING')]
             pa = s.g.get('post_added')
-            obl.append(Obl('C18/%s/no_key_beyond_the_frameworks_and_this_runs_extracted_metadata' % U, 'C18', s,
+            obl.append(Obl('C18/%s/no_key_beyond_the_frameworks_and_this_runs_extracted_metadata' % U, ('C18', 'C09'), s,
                            z3.Implies(z3.And(*([k_ != x for x in fwk] + ([z3.Not(pa[k_])] if pa is not None else []))), z3.Not(d_[k_])), oc))
             obl.append(Obl('C18/%s/duration_nonnegative' % U, 'C18', s, z3.And(is_num(m[key('DURATION')]), num(m[key('DURATION')]) >= 0), oc))
             obl.append(Obl('C18/%s/recorded_at_present' % U, 'C18', s, z3.And(d_[key('RECORDED_AT')], Val.is_s(m[key('RECORDED_AT')])), oc))
@@ -639,8 +646,9 @@ def w_op_recording(props=None, case=None):
 
 
 def w_op_passthrough(mode='disabled', props=None):
-    """recording disabled (and not replaying): the wrapper is exactly func(*args, **kwargs) and never touches the cassette"""
-    repo, spec, ex, st, selfv, fr, node, info = w_op_state(mode)
+    """recording disabled (and not replaying): the wrapper is exactly func(*args, **kwargs) and never touches the cassette -- for ANY call shape
+    (no positional argument at all, the receiver passed by keyword, ...): nothing about the arguments may be evaluated before delegating"""
+    repo, spec, ex, st, selfv, fr, node, info = w_op_state(mode, any_args=True)
     table_lookup(spec)
     paths = norm(ex.block(node.body, st)); obl = []; U = 'W_op.' + mode
     for s, oc in paths:
